@@ -33,7 +33,7 @@ static const char* path_name(int p) { return p == BYTES ? "bytes" : p == STREAM 
 
 // runs one reader on one (possibly damaged) image; returns outcome class
 static std::string run_case(const Family& f, int path, const Bytes& data, bool is_prefix, const std::string& full_obs, std::string& detail) {
-  ledger().errors.clear(); ledger().refused = 0; items().errors.clear();
+  ledger().errors.clear(); ledger().refused = 0; ledger().max_request = 0; items().errors.clear();
   const size_t live0 = ledger().live.size(); const long items0 = items().live; const int a0 = asan_errors();
   std::string outcome;
   // exact-size heap block; ASan rounds malloc(0) up to one addressable byte, so an empty buffer is the end of a 1-byte block
@@ -68,6 +68,7 @@ static std::string run_case(const Family& f, int path, const Bytes& data, bool i
   }
   free(raw);
   if (asan_errors() != a0) { outcome = "asan-report"; detail = "AddressSanitizer reported an invalid access (see log)"; }
+  else if (ledger().refused && ledger().max_request <= f.alloc_legal_max) { outcome = "bad_alloc"; ledger().live.clear(); items().live = items0; }   // refused by the harness, but legal for the format
   else if (ledger().refused) { outcome = "allocation-above-cap"; detail = ledger().errors.empty() ? "" : ledger().errors[0]; }
   else if (!ledger().errors.empty()) { outcome = "allocator-misuse"; detail = ledger().errors[0]; }
   else if (!items().errors.empty()) { outcome = "item-misuse"; detail = items().errors[0]; }
@@ -91,11 +92,11 @@ int main(int argc, char** argv) {
   Config cfg = parse_args(argc, argv);
   forbid_unowned_draws();
   register_all_families();
-  case_timeout_s() = 3;
+  case_timeout_s() = 10;
   std::vector<Task> tasks;
   { Task t; t.name = "meta"; t.fn = [](Report& rep) {
       rep.assumptions.push_back("images come from the enumerated corpora (one per distinct (size, first 8 bytes) shape, at most 4 KiB); replacement set {00,01,7f,80,ff, 8 single-bit flips}; preamble = first 8..40 bytes per family");
-      rep.assumptions.push_back("allocation cap 256 MiB per request through the supplied allocator; per-case alarm 10 s; std::bad_alloc from the cap counts as a violation (allocation-above-cap), from the runtime as rejection");
+      rep.assumptions.push_back("allocation cap 1 GiB per request through the supplied allocator (count_min: the format's own limit); per-case alarm 10 s; std::bad_alloc from the cap counts as a violation (allocation-above-cap), from the runtime as rejection");
       rep.sets("rule", "every (image, reader path, prefix length) and (image, reader path, preamble byte, replacement) is executed; distinct_nontrivial counts distinct (family, path, fault kind, outcome class) tuples");
     }; tasks.push_back(t); }
   const uint8_t repl[] = {0x00, 0x01, 0x7f, 0x80, 0xff};
@@ -104,7 +105,7 @@ int main(int argc, char** argv) {
     Task t; t.name = f.name; t.fn = [f, &cfg, repl](Report& rep) {
       if (!cfg.replay_scenario.empty() && cfg.replay_scenario != f.name) return;
       set_resumable(rep);
-      ledger().request_cap = (size_t)256 << 20;
+      ledger().request_cap = f.alloc_cap;
       std::vector<Img> imgs; collect(f, cfg.quick(), imgs, cfg.quick() ? 24 : 150);
       uint64_t cases = 0; size_t done = 0;
       for (size_t ii = 0; ii < imgs.size(); ++ii) {
